@@ -268,4 +268,95 @@ def marshalPlain (k : PrivKey) (comment : Bytes) (check : Nat) : Bytes :=
   magic ++ putString none_ ++ putString none_ ++ putString [] ++ putU32 1 ++ putString k.pub.marshal ++
     putString (privBlockOf k comment check 8)
 
+/-! ## the PEM front end: ParseRawPrivateKey / ParseRawPrivateKeyWithPassphrase / ParsePrivateKey(WithPassphrase)
+   for the non-OpenSSH block types.  encoding/pem, crypto/x509 (PKCS#1, PKCS#8, SEC1, legacy PEM
+   encryption) and encoding/asn1 are stdlib: their answers are oracle fields; the dispatch, the error
+   classes and ParseDSAPrivateKey's trailing-garbage rule are the repo's. -/
+
+/-- what the selected stdlib parser says about the DER bytes -/
+inductive DerRes where
+  | ok (kind : Bytes) (pub : Bytes)   -- key kind ("rsa", "ecdsa256", "ecdsa224", "ed25519", "dsa") and its SSH public blob
+  | structural                        -- asn1.StructuralError returned as such
+  | err                               -- any other error
+deriving DecidableEq, Repr
+
+structure PemIn where
+  /-- pem.Decode found no block -/
+  noBlock : Bool
+  ptype : Bytes
+  /-- block.Headers["Proc-Type"] -/
+  procType : Bytes
+  /-- x509.IsEncryptedPEMBlock -/
+  isEncPEM : Bool
+  /-- x509.DecryptPEMBlock: 0 = ok, 1 = x509.IncorrectPasswordError, 2 = other error -/
+  decrypt : Nat
+  /-- the parser selected by the block type, on the (decrypted) DER -/
+  der : DerRes
+  /-- DSA only: asn1.Unmarshal left trailing bytes -/
+  dsaRest : Bool
+
+inductive PemRes where
+  | err | needPass | badPass
+  | ok (kind : Bytes) (pub : Bytes)
+deriving DecidableEq, Repr
+
+def isInfixB (pat : Bytes) : Bytes → Bool
+  | [] => pat.isEmpty
+  | b :: r => (pat.isPrefixOf (b :: r)) || isInfixB pat r
+
+/-- `encryptedBlock`: Proc-Type mentions ENCRYPTED -/
+def encryptedBlock (i : PemIn) : Bool := isInfixB (nm "ENCRYPTED") i.procType
+
+def tyRSA := nm "RSA PRIVATE KEY"
+def tyPKCS8 := nm "PRIVATE KEY"
+def tyEC := nm "EC PRIVATE KEY"
+def tyDSA := nm "DSA PRIVATE KEY"
+def tyOpenSSH := nm "OPENSSH PRIVATE KEY"
+
+/-- `ParseDSAPrivateKey` on top of the asn1 oracle: no validation beyond "nothing after the SEQUENCE" -/
+def dsaDer (i : PemIn) : DerRes :=
+  match i.der with
+  | .ok k p => if i.dsaRest then .err else .ok k p
+  | _ => .err           -- the asn1 error is re-wrapped with errors.New: never a StructuralError
+
+/-- `ParseRawPrivateKey` for block types other than OPENSSH PRIVATE KEY -/
+def pemRawPlain (i : PemIn) : PemRes :=
+  if i.noBlock then .err
+  else if encryptedBlock i then .needPass
+  else
+    let fromDer (d : DerRes) : PemRes := match d with | .ok k p => .ok k p | _ => .err
+    if i.ptype = tyRSA ∨ i.ptype = tyPKCS8 ∨ i.ptype = tyEC then fromDer i.der
+    else if i.ptype = tyDSA then fromDer (dsaDer i)
+    else .err
+
+/-- `ParseRawPrivateKeyWithPassphrase` for block types other than OPENSSH PRIVATE KEY -/
+def pemRawPass (i : PemIn) : PemRes :=
+  if i.noBlock then .err
+  else if !encryptedBlock i || !i.isEncPEM then .err           -- "ssh: not an encrypted key"
+  else if i.decrypt = 1 then .badPass
+  else if i.decrypt ≠ 0 then .err
+  else
+    let d : DerRes :=
+      if i.ptype = tyRSA ∨ i.ptype = tyEC then i.der
+      else if i.ptype = tyDSA then dsaDer i
+      else .err                                                 -- unsupported type (incl. PKCS#8)
+    match d with
+    | .ok k p => .ok k p
+    | .structural => .badPass       -- noise after a wrong passphrase that DecryptPEMBlock did not notice
+    | .err => .err
+
+/-- `NewSignerFromKey` on a parsed key: unsupported curves and out-of-range DSA parameters are refused.
+    `dsaOk` = checkDSAParams (|P| = 1024 bits, |Q| = 160 bits, 0 < G < P). -/
+def signerOf (r : PemRes) (dsaOk : Bool) : PemRes :=
+  match r with
+  | .ok k p =>
+    if k = nm "ecdsa224" then .err
+    else if k = nm "dsa" ∧ !dsaOk then .err
+    else .ok k p
+  | x => x
+
+/-- `checkDSAParams` -/
+def checkDSAParams (p q g : Int) : Bool :=
+  bitLen p = 1024 && bitLen q = 160 && decide (g < p) && decide (0 < g)
+
 end XC.C39
